@@ -33,12 +33,25 @@ def render_section(sid, nl=b'\n'):
     return b'#' + sid.encode() + b': length=2' + nl + b'a\n', 2
 
 
-def render(ids):
+BLANKS = [b'\n', b'', b'  \n', b'\n\n', b'', b'\t\n']
+
+
+def render(ids, style='plain'):
+    """plain: headers back to back; blank: whitespace-only lines (which the reader skips and
+    does not count) in front of most headers; crlf: header lines end in CRLF"""
+    if style == 'blank':
+        return b''.join(BLANKS[i % len(BLANKS)] + render_section(s)[0] for i, s in enumerate(ids))
+    if style == 'crlf':
+        return b''.join(render_section(s, b'\r\n')[0] for s in ids)
     return b''.join(render_section(s)[0] for s in ids)
 
 
 class Spec(object):
     PID = PID
+    STYLE = 'plain'
+
+    def __init__(self, style='plain'):
+        self.STYLE = style
 
     def corpus(self):
         for j in base.load_corpus(PID):
@@ -74,16 +87,16 @@ class Spec(object):
             yield tuple(ids)
 
     def request(self, case):
-        return 'read 96 %s' % common.enc_bytes(render(case))
+        return 'read 96 %s' % common.enc_bytes(render(case, self.STYLE))
 
     def impl(self, case):
-        return adapters.impl_read(render(case))
+        return adapters.impl_read(render(case, self.STYLE))
 
     def model(self, case, resp):
         return resp
 
     def oracle(self, case, impl_res):
-        recs, err = adapters.read_records(render(case))
+        recs, err = adapters.read_records(render(case, self.STYLE))
         k = specdoc.first_illegal(case)
         bad = []
         got_ids = [r['section'] for r in recs]
@@ -108,10 +121,10 @@ class Spec(object):
                 bad.append('illegal id %r yielded' % r['section'])
         if 'diffx' in got_ids[1:]:
             bad.append('main section accepted twice')
-        return [{'what': b, 'ids': list(case)} for b in bad]
+        return [{'what': b, 'ids': list(case), 'style': self.STYLE} for b in bad]
 
     def key(self, case, impl_res):
-        return case if case else None
+        return (self.STYLE,) + case if case else None
 
     def bucket(self, case, impl_res):
         return impl_res.split(' ', 1)[0].split(':')[0] + '_%d' % min(len(case), 6)
@@ -130,8 +143,20 @@ def explore(ctx, escalate=False, hint=None):
     rule = ('every sequence of section ids over 9 legal + 13 well-formed-but-illegal ids up to length %d whose proper '
             'prefix is legal (exhaustive: continuing after the first illegal id adds nothing) + %d random walks of '
             'length <= 31 with a spliced id; each id rendered with a minimal valid body; expected first rejected index '
-            'from the specification hierarchy; distinct by id sequence' % budget)
-    return base.explore_generic(ctx, Spec(), budget, rule, exhaustive=True, chunk=20000)
+            'from the specification hierarchy; the sequences up to length-2 again with whitespace-only lines in front of the '
+            'headers and with CRLF header lines; distinct by (rendering, id sequence)' % budget)
+    r1 = base.explore_generic(ctx, Spec(), budget, rule, exhaustive=True, chunk=20000)
+    # the same sequences rendered as another producer may: blank lines before headers, CRLF headers
+    small = (max(3, budget[0] - 2), budget[1] // 4)
+    for style in ('blank', 'crlf'):
+        r2 = base.explore_generic(ctx, Spec(style), small, rule, exhaustive=True, chunk=20000)
+        for k in ('evaluations', 'distinct_nontrivial'):
+            r1[k] += r2[k]
+        r1['disagreements'] += r2['disagreements']
+        r1['violations'] += r2['violations']
+        for k, v in r2['distribution'].items():
+            r1['distribution'][style + '_' + k] = v
+    return r1
 
 
 def classify(v):
@@ -141,7 +166,7 @@ def classify(v):
 def replay(run, rp):
     v = rp.get('violation') or {}
     if 'ids' in v:
-        spec = Spec()
+        spec = Spec(v.get('style', 'plain'))
         case = tuple(v['ids'])
         print('implementation:', spec.impl(case)[:600])
         vs = spec.oracle(case, None)
